@@ -141,6 +141,10 @@ def dict_to_paths(root, d):
         return [(root, d)]
 
 
+#: Keys of a store's update that change its structure.
+STRUCTURAL_KEYS = ('_add', '_delete', '_move', '_generate', '_divide')
+
+
 def inverse_topology(outer, update, topology, inverse=None, multi_updates=True):
     '''
     Transform an update from the form its process produced into
@@ -165,6 +169,19 @@ def inverse_topology(outer, update, topology, inverse=None, multi_updates=True):
                     inner = outer
 
                 for child, child_update in update.items():
+                    if child in STRUCTURAL_KEYS:
+                        # addressed to the store itself, not to a child
+                        # of that name: routed as the tuple form does
+                        if multi_updates:
+                            inverse = update_in(
+                                inverse,
+                                inner,
+                                lambda current: deep_merge_multi_update(
+                                    current, {child: child_update}))
+                        else:
+                            assoc_path(
+                                inverse, inner + (child,), child_update)
+                        continue
                     inverse = inverse_topology(
                         inner + (child,),
                         update[child],
